@@ -356,17 +356,24 @@ def arith(op: str, a: SV, b: SV):
     both_str = z3.And(tag_is(a, "str"), tag_is(b, "str"))
     x, y = as_int(a), as_int(b)
     xr, yr = as_real(a), as_real(b)
+    can_real_ = a.may("real") or b.may("real")
+    can_str_ = a.may("str") and b.may("str")
+    rtags = frozenset(t for t, ok in (("int", True), ("real", can_real_), ("str", can_str_ and op == "+")) if ok)
     if op == "+":
         res = z3.If(both_int, Val.IntV(x + y), z3.If(both_num, Val.RealV(xr + yr), Val.StrV(z3.Concat(as_str(a), as_str(b)))))
-        return SV("val", res), z3.Not(z3.Or(both_num, both_str)), F
+        return SV("val", res, rtags), z3.Not(z3.Or(both_num, both_str)), F
     if op == "-":
         res = z3.If(both_int, Val.IntV(x - y), Val.RealV(xr - yr))
-        return SV("val", res), z3.Not(both_num), F
+        return SV("val", res, rtags), z3.Not(both_num), F
     if op == "*":
         res = z3.If(both_int, Val.IntV(x * y), Val.RealV(xr * yr))
-        return SV("val", res), z3.Not(both_num), F
+        return SV("val", res, rtags), z3.Not(both_num), F
     if op == "/":
         return SV("val", Val.RealV(xr / yr)), z3.Not(both_num), yr == 0
+    if op == "%" and not (a.may("real") or b.may("real")) and not (a.may("str")):
+        # integral modulo on dynamically typed operands (a str left operand would be %-formatting: excluded by the tag test)
+        r = z3.If(y > 0, x % y, z3.If(y < 0, -((-x) % (-y)), 0))
+        return SV("val", Val.IntV(r), frozenset(("int",))), z3.Not(both_int), y == 0
     raise OutsideSubset(f"dynamic {op}")
 
 
